@@ -9,8 +9,9 @@ from persim import sliced_wasserstein
 from ..core import Clause
 from ..oracles import kernels as K
 from ..oracles import matching as Mt
-from ..strategies import diagram_family, finite, permutation_of, valid_family
+from ..strategies import dict_of, diagram_family, finite, permutation_of, valid_family
 
+FUZZ = ["value"]
 RULE = ("Diagrams of 0..12 points with coordinates of either sign (shared lattice with negative shifts, ulp-perturbed, floats), "
         "M in 1..60.")
 ASSUMPTIONS = [
@@ -44,7 +45,7 @@ def labels(ctx, fam, M, *dgms):
         ctx.label("has_empty")
 
 
-s_value = st.fixed_dictionaries({"fam": diagram_family(count=2, min_size=0, max_size=12), "M": MS, "narrow": st.booleans()})
+s_value = dict_of({"fam": diagram_family(count=2, min_size=0, max_size=12), "M": MS, "narrow": st.booleans()})
 
 
 def check_value(case, ctx):
@@ -69,7 +70,7 @@ def check_value(case, ctx):
                 lambda: "sliced_wasserstein=%r, averaged 1-D transport cost=%r (tol %r) M=%d A=%s B=%s" % (v, ref, tol, M, A, B))
 
 
-s_triple = st.fixed_dictionaries({"fam": diagram_family(count=3, min_size=0, max_size=10), "M": MS,
+s_triple = dict_of({"fam": diagram_family(count=3, min_size=0, max_size=10), "M": MS,
                                   "seed": st.integers(0, 2 ** 31)})
 
 
@@ -134,7 +135,7 @@ def check_invariance(case, ctx):
     ctx.require(abs(v - lam * base) <= 5e-6 * asum(A, B) * lam, "scaling", lambda: "SW(lam A, lam B)=%r, lam*SW=%r" % (v, lam * base))
 
 
-s_stab = st.fixed_dictionaries({"fam": diagram_family(count=2, min_size=0, max_size=10), "M": MS})
+s_stab = dict_of({"fam": diagram_family(count=2, min_size=0, max_size=10), "M": MS})
 
 
 def check_stability(case, ctx):
